@@ -873,9 +873,17 @@ def _np_nonzero(a):
 
 @implements(np.count_nonzero)
 def _np_count_nonzero(a, axis=None, **k):
+    """number of non-zero entries as a symbolic integer (no forking: a later comparison is a single decision)"""
     p = plain(a)
-    conc = _real_array([bool(S.as_sb(e)) for e in p.flat], dtype=bool).reshape(p.shape)
-    return np.count_nonzero(conc, axis=axis)
+    ind = _elementwise(lambda e: BVS(ir.bvext(ir.rite(S.as_sb(e).n, ir.bvconst(1, 1), ir.bvconst(0, 1)), 64, False), np.int64), p)
+    if axis is None:
+        if ind.size == 0:
+            return 0
+        r = ind.reshape(-1)[0]
+        for e in ind.reshape(-1)[1:]:
+            r = r + e
+        return r if not r.isconst else int(r.const_value())
+    return np.add.reduce(wrap(ind, np.int64), axis=axis)
 
 
 @implements(np.where)
